@@ -1,7 +1,10 @@
 #!/bin/bash
 # One-time setup after a fresh restore: build the checker (warms the Go build cache). Offline.
 set -eu
+export GOFLAGS=-mod=mod GOPROXY=off
 cd "$(dirname "$0")/.."
 mkdir -p bin evidence replays
 scripts/build.sh
 bin/verif list
+# warm the caches of the overlay and -race builds used by the C20 check
+scripts/gen_overlay.sh && go build -overlay bin/overlay/ov.json -o bin/verif-c20 ./cmd/verif && go build -race -o bin/c20race ./cmd/c20race
